@@ -263,6 +263,21 @@ def _signed(t):
     return t[:1] == "I"
 
 
+def canon_nan(n):
+    return struct.pack("<f" if n == 4 else "<d", float("nan"))
+
+
+def canon_nans(lay, P):
+    """P with every floating point field that holds a NaN overwritten by the canonical NaN pattern (see project_field)"""
+    buf = bytearray(P)
+    for e in lay["lay"]:
+        if e["k"] == "f" and e["t"][:1] == "R" and e["size"] in (4, 8) and 0 <= e["off"] and e["off"] + e["size"] <= len(buf):
+            c = struct.unpack("<f" if e["size"] == 4 else "<d", bytes(buf[e["off"]:e["off"] + e["size"]]))[0]
+            if math.isnan(c):
+                buf[e["off"]:e["off"] + e["size"]] = canon_nan(e["size"])
+    return bytes(buf)
+
+
 def project_field(e, v, P, hp=None):
     """[k, bytes, hpbytes] for attribute value v of layout entry e (candidate bytes from P)"""
     t = e["t"]
@@ -313,8 +328,10 @@ def project_field(e, v, P, hp=None):
         if not _num_ok(v):
             return bad
         if isinstance(v, float) and math.isnan(v):
+            # "not a number" is ONE value: which of its bit patterns stands in the payload is not the library's doing (converting a
+            # signalling NaN between 32 and 64 bits quiets it in hardware) - every NaN pattern is projected to the canonical one
             c = struct.unpack("<f" if n == 4 else "<d", cand)[0] if len(cand) == n else 0.0
-            return ["f", list(cand) if math.isnan(c) else [256], []]
+            return ["f", list(canon_nan(n)) if math.isnan(c) else [256], []]
         try:
             if e["sc"] == 1:
                 c = struct.unpack("<f" if n == 4 else "<d", cand)[0]
